@@ -424,6 +424,7 @@ def _inside(node: ast.AST, container: ast.AST) -> bool:
 
 def run(ctx: Ctx) -> None:
     ctx.call(T.t_g1, "1/T.G1")
+    ctx.call(N.scan_trust, "6s")
     ctx.call(T.t_g4, "2/T.G4")
     ctx.call(T.t_g3, "3/T.G3")
     ctx.call(T.t_o1, "4/T.O1")
